@@ -233,21 +233,33 @@ def _canon_spelling(s):
     return (sign, ip, fp if (fp or m.group(3) is None) else '0' if False else fp, ex, m.group(3) is not None)
 
 
-@contract(ParseMCNPCell.parse_material, props=['C09'], name='ParseMCNPCell.parse_material', status='B')
+@contract(ParseMCNPCell.parse_one_cell_worker, props=['C09'], name='ParseMCNPCell.material-and-density-of-a-cell',
+          status='B')
 class _ParseMat:
-    scope = 'material fields "0", "0 " and "<n> <rho>" for 3 numbers x 6 density spellings'
+    """Material number and *normalised* density of a parsed cell: from the card, or from the MAT= / RHO= overrides of a
+    LIKE n BUT cell (same normal form, so that GEOMCOMP and COMPOSITION agree on the name); void cells have no density."""
+    scope = ('material fields "0" and "<n> <rho>" for 3 numbers x 8 density spellings, with and without MAT= / RHO= '
+             'overrides in 8 spellings')
 
     def bounded(tier):
-        yield {'material': '0', 'want': ('0', None)}
-        yield {'material': ' 0 ', 'want': ('0', None)}
+        rhos = ('-1.0', '-2.50', '0.05', '1.0e-1', '-7.8', '6.40875-2', '-2.70', '-2.70-1')
+        yield {'material': '0', 'opts': '', 'want': ('0', None)}
         for n in ('1', '12', '305'):
-            for rho in ('-1.0', '-2.50', '0.05', '1.0e-1', '-7.8', '6.40875-2'):
-                yield {'material': f'{n} {rho}', 'want': (n, Utils.normalize_float(rho))}
+            for rho in rhos:
+                yield {'material': f'{n} {rho}', 'opts': '', 'want': (n, Utils.normalize_float(rho))}
+        for rho in rhos:
+            yield {'material': '4 -1.0', 'opts': f'rho={rho}', 'want': ('4', Utils.normalize_float(rho))}
+            yield {'material': '4 -1.0', 'opts': f'mat=9 rho={rho}', 'want': ('9', Utils.normalize_float(rho))}
+        yield {'material': '4 -1.50', 'opts': 'mat=9', 'want': ('9', '-1.5')}
 
-    def call(material, want):
-        return ParseMCNPCell.parse_material(material)
+    def call(material, opts, want):
+        from harness import shim
+        from contracts.c12 import _bare_parser
+        shim.install()
+        c = _bare_parser(importances=[1.0]).parse_one_cell_worker(0, None, (material, '-1', 'imp:n=1 ' + opts))
+        return c.materialID, c.density
 
-    def ensures(result, material, want):
+    def ensures(result, material, opts, want):
         yield 'material-and-normalised-density', result == want
 
 
